@@ -69,7 +69,7 @@ try:
     res["demo_with"] = demo(patched)
     res["checks"] = {}
     for pid in pids:
-        env = dict(os.environ, VERIF_REPO=patched)
+        env = dict(os.environ, VERIF_REPO=patched, VERIF_OUT=patched + ".out")
         r = sh(["/venv/bin/python", "/verif/run.py", pid, "--tier", tier], env=env, cwd="/verif")
         lines = r.stdout.strip().splitlines()
         keys = [l.strip()[:300] for l in lines if l.strip().startswith("key=")]
@@ -77,6 +77,7 @@ try:
 finally:
     shutil.rmtree(clean, ignore_errors=True)
     shutil.rmtree(patched, ignore_errors=True)
+    shutil.rmtree(patched + ".out", ignore_errors=True)
 
 dst = os.path.join("/verif/seeded", name)
 os.makedirs(dst, exist_ok=True)
